@@ -15,6 +15,7 @@ import (
 	"path/filepath"
 	"sort"
 	"strings"
+	"syscall"
 
 	"github.com/klev-dev/klevdb"
 
@@ -39,6 +40,8 @@ var Starts = []Start{
 	{"never-opened", nil, false, false, false}, // the directory exists but was never opened before the search
 	{"multi-damaged", []string{"P:0/1/u", "P:1/1/u", "P:0/1/u", "P:1/1/u", "P:0/1/u"}, false, true, false},
 	{"head-torn", []string{"P:0/1/u", "P:1/1/u", "P:0/1/u"}, false, false, true},
+	// the head segment [2 3 4] lost its middle message: offsets in it are not dense
+	{"head-gap", []string{"P:0/1/u", "P:1/1/u", "P:0/1/u,1/1/u,0/1/u", "D:3"}, false, false, false},
 }
 
 var cfg = drv.Cfg{Keys: true, Times: true, Rollover: 60, Ver: 2}
@@ -330,6 +333,33 @@ func (s *sys) apply(letter string) {
 		w.L = nil
 	default:
 		panic("unknown letter " + letter)
+	}
+	s.probeLock(letter)
+}
+
+// probeLock asks the kernel directly: with an open file description of its own on the
+// lock file, an exclusive flock must be obtainable iff no handle is open, a shared one
+// iff no read-write handle is open (a failed or closed Open must not leave a lock behind).
+func (s *sys) probeLock(letter string) {
+	f, err := os.Open(filepath.Join(s.w.Dir, ".lock"))
+	if err != nil {
+		return // never opened yet: nothing can hold a lock
+	}
+	defer f.Close()
+	try := func(how int) bool {
+		if err := syscall.Flock(int(f.Fd()), how|syscall.LOCK_NB); err != nil {
+			return false
+		}
+		_ = syscall.Flock(int(f.Fd()), syscall.LOCK_UN)
+		return true
+	}
+	wantSh := !s.anyOpen(1)
+	wantEx := !s.anyOpen(1) && !s.anyOpen(2)
+	if got := try(syscall.LOCK_SH); got != wantSh {
+		s.failf("after %s a shared lock on the directory can be taken = %v, want %v (slots %v)", letter, got, wantSh, s.mode)
+	}
+	if got := try(syscall.LOCK_EX); got != wantEx {
+		s.failf("after %s an exclusive lock on the directory can be taken = %v, want %v (slots %v)", letter, got, wantEx, s.mode)
 	}
 }
 
